@@ -234,9 +234,11 @@ def b_cframe(m1, m2, how, pre, inner, tail, b2):
             node(m1, [NEW(2)] + pre + [("cfun", how, inner)] + tail), node(m2, b2)]
 
 
+# NCB: a nested callback from C that runs to completion inside the callback; what follows it is still inside a C frame
+NCB = ("cfun", "replace", [])
 CF_INNER = [Y, ER, SG(0), SG(5), RES(2), CAN(2), PROP(2), EACH2, T(Y), T(ER), ("defer", [Y]),
-            ("protect", [SG(5)]), T(RES(2))]
-CF_INNER_Q = [Y, ER, SG(5), RES(2), CAN(2), PROP(2), EACH2, T(Y), ("defer", [Y]), T(RES(2))]
+            ("protect", [SG(5)]), T(RES(2)), NCB]
+CF_INNER_Q = [Y, ER, SG(5), RES(2), CAN(2), PROP(2), EACH2, T(Y), ("defer", [Y]), T(RES(2)), NCB]
 
 
 # ------------------------------------------------------------------ registry per tier
